@@ -75,6 +75,7 @@ class Agg:
         if st.get("policy"):
             self.policies[st["policy"]] += 1
         self.extra["threads_unblocked_by_recovery"] += st.get("unblocked", 0)
+        self.extra["lock_waits_scheduled"] += st.get("lockwaits", 0)
         self.observed += st.get("observed", 0)
         self.quiescent += st.get("quiescent", 0)
         self.capped += 1 if st.get("capped") else 0
